@@ -38,6 +38,8 @@ class Projection:
             upper = np.inner(dbezui, bezui)
             lower = np.inner(ddbezui, bezui)
             lower += np.inner(dbezui, dbezui)
+            if lower == 0 or niter > 100:  # cusp or repeated point: no step
+                return [initparam]
             diff = upper / lower
             initparam -= diff
             if initparam < umin:
